@@ -332,9 +332,17 @@ impl BuiltInFunction {
                     unreachable!()
                 };
 
-                let removed = v.0.borrow_mut().remove((*i).try_into().with_context(|| {
+                let index: usize = (*i).try_into().with_context(|| {
                     format!("vector index `{i}` could not fit in an int (i32)")
-                })?);
+                })?;
+
+                let mut view = v.0.borrow_mut();
+
+                if index >= view.len() {
+                    bail!("removal index {index} out of bounds (len {})", view.len())
+                }
+
+                let removed = view.remove(index);
 
                 Ok((Some(removed), None))
             }
@@ -446,7 +454,14 @@ impl BuiltInFunction {
                     format!("top vector index `{top}` could not be used to index (usize)")
                 })?;
 
-                Ok((Some(Primitive::Str(s[bottom..top].to_owned())), None))
+                let Some(substring) = s.get(bottom..top) else {
+                    bail!(
+                        "substring range {bottom}..{top} is out of bounds or splits a character (len {} bytes)",
+                        s.len()
+                    )
+                };
+
+                Ok((Some(Primitive::Str(substring.to_owned())), None))
             }
             Self::StrContains => {
                 let Some(Primitive::Str(s)) = arguments.first() else {
@@ -518,14 +533,18 @@ impl BuiltInFunction {
 
                 let mut result = original.clone();
 
-                result.insert_str(
-                    (*bottom).try_into().with_context(|| {
-                        format!(
-                            "string insertion index `{bottom}` could not be used to index (usize)"
-                        )
-                    })?,
-                    new,
-                );
+                let index: usize = (*bottom).try_into().with_context(|| {
+                    format!("string insertion index `{bottom}` could not be used to index (usize)")
+                })?;
+
+                if !result.is_char_boundary(index) {
+                    bail!(
+                        "string insertion index {index} is out of bounds or splits a character (len {} bytes)",
+                        result.len()
+                    )
+                }
+
+                result.insert_str(index, new);
                 Ok((Some(Primitive::Str(result)), None))
             }
             Self::StrReplace => {
@@ -566,12 +585,21 @@ impl BuiltInFunction {
                     format!("string bottom index `{top}` could not be used to index (usize)")
                 })?;
 
-                let start = top - bottom + 1;
+                let (Some(head), Some(tail)) = (s.get(..bottom), s.get(top..)) else {
+                    bail!(
+                        "string deletion range {bottom}..{top} is out of bounds or splits a character (len {} bytes)",
+                        s.len()
+                    )
+                };
 
-                let mut result = String::with_capacity(s.len() - start);
+                if bottom > top {
+                    bail!("string deletion range {bottom}..{top} is reversed")
+                }
 
-                result.push_str(&s[..bottom]);
-                result.push_str(&s[top..]);
+                let mut result = String::with_capacity(head.len() + tail.len());
+
+                result.push_str(head);
+                result.push_str(tail);
 
                 Ok((Some(Primitive::Str(result)), None))
             }
@@ -630,6 +658,10 @@ impl BuiltInFunction {
                     s
                 };
 
+                if !(2..=36).contains(radix) {
+                    bail!("`{radix}` is an invalid radix (valid: 2 through 36)")
+                }
+
                 if let Ok(num) = i32::from_str_radix(
                     s,
                     (*radix)
@@ -658,6 +690,10 @@ impl BuiltInFunction {
                 } else {
                     s
                 };
+
+                if !(2..=36).contains(radix) {
+                    bail!("`{radix}` is an invalid radix (valid: 2 through 36)")
+                }
 
                 if let Ok(num) = i128::from_str_radix(
                     s,
